@@ -28,6 +28,7 @@ import (
 	"strconv"
 	"strings"
 	"sync"
+	"sync/atomic"
 
 	"0chain.net/chaincore/block"
 	"0chain.net/chaincore/chain"
@@ -218,6 +219,7 @@ func hashOps(ops []string) string {
 
 type world struct {
 	w       *engine.World
+	wid     uint64
 	feeOn   bool
 	ext     map[string]int // id -> index (≥ extBase)
 	extID   map[int]string
@@ -274,9 +276,8 @@ func newWorld(feeOn, fork bool) *world {
 	g := genesis[fi]
 	engine.SetFeeEnabled(feeOn)
 	w := &engine.World{C: g.C, NDB: g.NDB, Prev: g.Prev, Round: 0, Now: g.Now}
-	w.NextBlock()
-	w.B.MinerID = uid[iNode]
-	x := &world{w: w, feeOn: feeOn, ext: map[string]int{}, extID: map[int]string{}, known: map[string]bool{}, free: newFreeBook()}
+	x := &world{w: w, wid: atomic.AddUint64(&worldCounter, 1), feeOn: feeOn, ext: map[string]int{}, extID: map[int]string{}, known: map[string]bool{}, free: newFreeBook()}
+	x.nextBlock()
 	x.known[encryption.Hash("verif-genesis-txn")] = true
 	x.leaves = x.clientLeaves()
 	return x
@@ -297,9 +298,17 @@ func initLine(feeOn, fork bool) string {
 	return strings.Join(parts, " ")
 }
 
+var worldCounter uint64
+
+// nextBlock opens the next block. The chain's state cache is global and keyed by block hash, and a World built over
+// the shared genesis (not through engine.NewWorld) has no identity of its own: give every block of every world a
+// process-wide unique hash (and a block cache under that hash), or cached values leak from one case into another.
 func (x *world) nextBlock() {
 	x.w.NextBlock()
-	x.w.B.MinerID = uid[iNode]
+	b := x.w.B
+	b.MinerID = uid[iNode]
+	b.Hash = encryption.Hash(fmt.Sprintf("c04-block-%d-world-%d", b.Round, x.wid))
+	x.w.BC = statecache.NewBlockCache(x.w.C.GetStateCache(), statecache.Block{Round: b.Round, Hash: b.Hash, PrevHash: b.PrevHash})
 }
 
 func (x *world) idOf(i int) string {
